@@ -16,6 +16,11 @@ CHECKS = {
             "All answer sections of length <=3 (thorough <=4) over 15 record kinds with CNAME owner chaining, the offending record at every position, x 10 rule sets (names, IPv4/IPv6 literals, exceptions, $important, allow-listed/excepted queried name, hosts-style, $dnstype) x 5 modes + 5 flag variants x 5 query types; blocked => the mode's response for the query's type without upstream data and a log entry carrying the original answer; else the upstream answer unchanged.",
             "single-rule matching delegated to urlfilter; with AAAA disabled HTTPS records are accepted with or without ipv6hint.",
             "DESIGN.md §4 C02", "E1-stateless"),
+    "C03": ("exploration",
+            "bounded exhaustive enumeration of (access lists x protocol x client address x ClientID x name) through the real pre-request hook and pipeline, against a set-theoretic access model; loopback conformance of the drop contract",
+            "Every disjoint allowed/disallowed pair of subsets (size <=2, thorough <=3) of 10 list items x 6 protocols x 9 addresses (in/out of each CIDR, zoned, 4-in-6) x 4 ClientID labels; 8 blocked-host pattern sets x names x qtypes x protocols. Excluded => dropped (UDP/DNSCrypt) or REFUSED echoing the request, with no upstream call, log entry or statistics update; admitted => served. The plain-error=silence contract of dnsproxy is validated by real UDP/TCP exchanges on 127.0.0.1.",
+            "blocked-host matching delegated to urlfilter; 4-in-6 addresses whose two readings differ are not judged; only lower-case ClientID list entries.",
+            "DESIGN.md §4 C03", "E1-stateless"),
     "C04": ("model_checking",
             "explicit-state BFS over operation histories executed on the real client.Storage, implementation-dump dedup, list-of-clients reference model checked on every transition",
             "All histories of add/update(rename, change ids, switch own settings)/remove/DHCP-flip up to depth 3 (quick: 2 names, 8 colliding identifiers incl. nested/unmasked/offset CIDRs, 2 IPs, MAC, ClientID) or 4 (thorough: 3 names, 16 identifiers); after every transition accept/reject, unchanged-on-reject, index-map consistency and every lookup path are compared with the reference.",
